@@ -123,7 +123,7 @@ PROPS['C07'] = dict(
     rule='x07: every filter of <=3 levels over {a,b,+,#,""} against all 39 topics of <=3 levels over {a,b,""}; rtop: seeded insert/remove/match histories; retained: 2-29 set/clear operations over 8 topics with shared prefixes and empty levels, replicated shuffled with duplicates, 16+ Get queries with filters of <=3 levels over {a,b,c,+,#,""}.',
 )
 
-_E2E_NOTE = 'Trusted: Coq kernel + vm_compute; the end-to-end harness (scripted connections, logging wrappers around the real log/writer/in-flight queue/registry, in-process gRPC, condition waits), its Gallina emitter and the evaluator Corr/Broker.v. The node model runs each script step to quiescence: interleavings inside a step (publish workers, log consumer, writer) are not distinguished, overload behaviour (800 ms Process timeout, identifier retry) is not modelled; broker-chosen packet identifiers are compared as per-step multisets. The theorems are about the building blocks of the step function (Distribute, publish worker, writer send, in-flight callbacks, shutdownSession, setup), not about whole histories, except where stated.'
+_E2E_NOTE = 'Trusted: Coq kernel + vm_compute; the end-to-end harness (scripted connections, logging wrappers around the real log/writer/in-flight queue/registry, in-process gRPC, condition waits), its Gallina emitter and the evaluator Corr/Broker.v. The node model runs each script step to quiescence: interleavings inside a step (publish workers, log consumer, writer) are not distinguished, overload behaviour (800 ms Process timeout, identifier retry) is not modelled; broker-chosen packet identifiers are masked in the model comparison (their assignment depends on Go map order) and checked by the specification oracle on the real values (range, uniqueness among those in flight, same identifier on retransmission and PUBREL, pending count). The theorems are about the building blocks of the step function (Distribute, publish worker, writer send, in-flight callbacks, shutdownSession, setup), not about whole histories, except where stated.'
 
 def _broker(runs):
     return dict(name='broker', corr='Broker', runs=runs, par=8)
@@ -133,7 +133,7 @@ PROPS['C02'] = dict(theorems=['acked_implies_stored', 'nothing_skipped', 'stored
     level_note=_E2E_NOTE,
     families=[_broker([('pipeline', 40, 400)]), dict(name='crash', corr='Consumer', runs=[('edges', 16, 160)], par=8)], rule='pipeline: 1-3 publishers and subscribers, 1-12 publishes (QoS mix) from the very first log entry on; thorough: every 41st case 520 publishes (segment roll).')
 PROPS['C03'] = dict(theorems=['qos1_retransmit', 'qos2_publish_phase', 'qos2_pubrec_then_pubrel', 'qos2_pubrel_phase', 'completion_frees', 'wrong_ack_harmless', 'retransmitted_every_sweep', 'ended_session_frees_identifier'],
-    level_text='Theorems (node model): an expired QoS 1 PUBLISH / QoS 2 PUBLISH / PUBREL of a live session is written again with the same identifier and re-armed; PUBREC moves a QoS 2 delivery to its PUBREL phase; the completing acknowledgement, or expiry after the session ended, sends nothing and returns the identifier to the pool; an acknowledgement of the wrong type or for an unknown identifier changes nothing. Over histories (Proofs/RetransmitFacts.v): in every reachable cluster state a sweep re-sends every pending delivery of a registered session with the same packet and leaves it pending under the same key and tag, and for an entry of a vanished session it leaves nothing holding the identifier and the pool has it back. Tied to the Go writer and in-flight queue by end-to-end scripts (acknowledge / stay silent for sweeps / wrong type / unknown identifier / session end, interleaved over 1-3 sessions) compared step by step, identifiers as per-step multisets.',
+    level_text='Theorems (node model): an expired QoS 1 PUBLISH / QoS 2 PUBLISH / PUBREL of a live session is written again with the same identifier and re-armed; PUBREC moves a QoS 2 delivery to its PUBREL phase; the completing acknowledgement, or expiry after the session ended, sends nothing and returns the identifier to the pool; an acknowledgement of the wrong type or for an unknown identifier changes nothing. Over histories (Proofs/RetransmitFacts.v): in every reachable cluster state a sweep re-sends every pending delivery of a registered session with the same packet and leaves it pending under the same key and tag, and for an entry of a vanished session it leaves nothing holding the identifier and the pool has it back. Tied to the Go writer and in-flight queue by end-to-end scripts (acknowledge / stay silent for sweeps / wrong type / unknown identifier / session end, interleaved over 1-3 sessions) compared step by step (identifiers masked against the model, their discipline demanded by the oracle of the real values).',
     level_note=_E2E_NOTE,
     families=[_broker([('acks', 64, 800)])], rule='acks: 1-3 sessions subscribed at QoS 1/2, 1-4 messages, per in-flight message the client acknowledges / stays silent for sweeps / answers with the wrong type or an unknown identifier / ends its session, interleaved; then a fresh subscriber shows which identifiers are reusable.')
 PROPS['C05'] = dict(theorems=['stored_iff_reported_ok', 'ack_after_store', 'qos2_never_on_publish_alone', 'qos2_not_again'],
